@@ -213,6 +213,7 @@ struct acq_cfg {
     struct stream_cfg s[2];
     int end; int client; int client_stream; int abort_from_thread; int stop_delay_us; int inject;
     int fault; // 0 none, 1 camera fault, 2 storage fault
+    int no_configure; // started again as it is, without acquire_configure (the previous settings stay in force)
 };
 
 // frames seen by the monitoring client
@@ -361,7 +362,7 @@ static int guarded_call(int kind, const char* what, double timeout_s)
 
 // ---- per-acquisition result + oracles ---------------------------------------------------------------------------------
 static struct { unsigned long cases, acqs, frames_cam, frames_sto, frames_client, wraps, sleeps, stops, aborts, two_stream, avg_acqs, faults_cam,
-                faults_sto, instants_hit[END_N], instants_missed[END_N], client_pat[CL_N], late_join, c08_programs, c08_calls, reconfig_switch,
+                faults_sto, instants_hit[END_N], instants_missed[END_N], client_pat[CL_N], late_join, restarts_without_configure, c08_programs, c08_calls, reconfig_switch,
                 writer_asleep_at_fault, dead_filter_aborts, avg_windows, nondiv8, shape_changes, holds_across_end, real_dev_acqs, zero_frames; } C;
 static vset g_sigs;
 
@@ -656,7 +657,9 @@ static void run_acquisition(const struct acq_cfg* a, vrng* g, int acq_index, str
     atomic_store(&g_inject, a->inject);
     for (int i = 0; i < 4; ++i) { atomic_store(&g_wraps[i], 0); atomic_store(&g_sleeps[i], 0); }
     atomic_store(&g_ilv_sig, 0xcbf29ce484222325ULL);
-    if (do_configure(a) != AcquireStatus_Ok) { violation("C08", "configure-failed", "%s: acquire_configure failed", ctx); return; }
+    if (a->no_configure) {
+        for (int i = 0; i < 2; ++i) if (a->s[i].on && !a->s[i].real_devices) { M->cam[i].cfg = a->s[i].cam; M->sto[i].cfg = a->s[i].sto; }
+    } else if (do_configure(a) != AcquireStatus_Ok) { violation("C08", "configure-failed", "%s: acquire_configure failed", ctx); return; }
     for (int i = 0; i < 2; ++i)
         if (a->s[i].on) { r->cam_epoch[i] = (uint64_t)atomic_load(&M->cam[i].epoch) + 1; r->sto_start[i] = (uint32_t)atomic_load(&M->sto[i].starts) + 1; }
     ++g_acq_label;
@@ -857,8 +860,19 @@ static void run_case(const char* mode, uint64_t seed, unsigned long icase, int v
     int client_kind = (int)vrng_range(&g, 1, CL_N - 1);
     int have_client = is06 || vrng_chance(&g, 1, 2);
     int client_stream = two ? (int)vrng_below(&g, 2) : 0;
+    struct acq_cfg prev; memset(&prev, 0, sizeof prev);
     for (int q = 0; q < nacq && !g_case_violated; ++q) {
         struct acq_cfg a = base;
+        // every fifth acquisition after a fault-free one is started again as it is, without acquire_configure
+        // (after a fault the devices await configuration by design)
+        int repeat = q > 0 && !prev.fault && vrng_chance(&g, 1, 5);
+        if (repeat) {
+            a = prev; a.no_configure = 1; a.inject = vrng_chance(&g, 2, 3);
+            a.client = have_client && q >= client_from ? (vrng_chance(&g, 1, 4) ? (int)vrng_range(&g, 1, CL_N - 1) : client_kind) : CL_NONE;
+            if (a.client != CL_NONE && q == client_from && client_from > 0) ++C.late_join;
+            if (a.end == END_ABORT_CLIENT_HOLDS && a.client == CL_NONE) a.client = CL_HOLD;
+            ++C.restarts_without_configure;
+        } else {
         // per-acquisition variation (same shapes: the ring was sized for them)
         for (int i = 0; i < 2; ++i) {
             if (!a.s[i].on) continue;
@@ -920,14 +934,17 @@ static void run_case(const char* mode, uint64_t seed, unsigned long icase, int v
             a.s[i].trig = 0;
         }
         if (is05) { a.end = vrng_chance(&g, 1, 2) ? END_STOP_NOW : END_WAIT_DONE_THEN_STOP; }
+        }
         if (g_cl_first_map_label >= 0 && a.client == CL_NONE) a.client = client_kind; // a registered reader must keep draining
+        if (a.no_configure && a.client == CL_HOLD)
+            for (int i = 0; i < 2; ++i) if (a.s[i].on && a.s[i].N > 60 && a.s[i].N != (uint64_t)-1) a.client = CL_EAGER; // the frame count cannot be changed without configuring
         if (a.client != CL_NONE && (a.end == END_STOP_NOW || a.end == END_STOP_DELAY)) {
             const struct stream_cfg* cs_ = &a.s[client_stream];
             size_t per = frame_bytes(cs_->w, cs_->h, cs_->avg > 1 ? SampleType_f32 : cs_->type);
             if (cs_->N * per > g_cap_sink[client_stream] / 2) a.end = END_WAIT_DONE_THEN_STOP;
         }
         if (a.client == CL_HOLD) for (int i = 0; i < 2; ++i) if (a.s[i].on && a.s[i].N > 60 && a.s[i].N != (uint64_t)-1) a.s[i].N = vrng_range(&g, 5, 60);
-        vbuf_printf(&g_log, "acq%d{", q);
+        vbuf_printf(&g_log, "acq%d%s{", q, a.no_configure ? "(no configure)" : "");
         for (int i = 0; i < 2; ++i)
             if (a.s[i].on)
                 vbuf_printf(&g_log, "s%d:%ux%u t%d N=%lld avg=%u wd=%g trig=%d%s%s%s ", i, a.s[i].w, a.s[i].h, a.s[i].type, (long long)a.s[i].N, a.s[i].avg,
@@ -937,6 +954,7 @@ static void run_case(const char* mode, uint64_t seed, unsigned long icase, int v
         struct acq_result r;
         run_acquisition(&a, &g, q, &r, 1);
         g_prev_aborted = r.ended_by_abort || a.fault; g_prev_faulted = a.fault;
+        prev = a;
         reset_logs();
     }
     ++g_api_calls;
@@ -1080,10 +1098,10 @@ int main(int argc, char** argv)
            "\"ring_wraps\":%lu,\"writer_sleeps\":%lu,\"stops\":%lu,\"aborts\":%lu,\"two_stream_acqs\":%lu,\"averaging_acqs\":%lu,\"averaged_windows_checked\":%lu,"
            "\"aborts_with_dead_filter\":%lu,\"camera_faults\":%lu,\"storage_faults\":%lu,\"faults_with_writer_asleep\":%lu,\"late_joins\":%lu,\"holds_across_end\":%lu,\"frame_sizes_not_div8\":%lu,"
            "\"shape_change_acqs\":%lu,\"zero_size_acqs\":%lu,\"real_device_acqs\":%lu,\"programs\":%lu,\"program_calls\":%lu,\"device_switches\":%lu,\"api_calls\":%d,"
-           "\"device_events\":%zu,\"distinct\":%zu",
+           "\"device_events\":%zu,\"restarts_without_configure\":%lu,\"distinct\":%zu",
            g_mode, C.cases, g_nviol, C.acqs, C.frames_cam, C.frames_sto, C.frames_client, C.wraps, C.sleeps, C.stops, C.aborts, C.two_stream, C.avg_acqs,
            C.avg_windows, C.dead_filter_aborts, C.faults_cam, C.faults_sto, C.writer_asleep_at_fault, C.late_join, C.holds_across_end, C.nondiv8, C.shape_changes, C.zero_frames,
-           C.real_dev_acqs, C.c08_programs, C.c08_calls, C.reconfig_switch, g_api_calls, M->nevents, g_sigs.n);
+           C.real_dev_acqs, C.c08_programs, C.c08_calls, C.reconfig_switch, g_api_calls, M->nevents, C.restarts_without_configure, g_sigs.n);
     for (int i = 0; i < END_N; ++i) printf(",\"end_%s\":%lu,\"end_%s_missed\":%lu", k_end[i], C.instants_hit[i], k_end[i], C.instants_missed[i]);
     for (int i = 0; i < CL_N; ++i) printf(",\"client_%s\":%lu", k_client[i], C.client_pat[i]);
     printf("}\n");
